@@ -79,6 +79,7 @@ def main(argv: List[str]) -> int:
                 s = f.read_text()
                 if how[2] not in s:
                     rows.append((mid, prop, expect, "NOT-APPLICABLE (old text missing)", "", 0.0))
+                    print(f"{mid:22s} {prop} expect={expect:6s} NOT-APPLICABLE (old text missing)  <-- UNEXPECTED", flush=True)
                     bad += 1
                     continue
                 f.write_text(s.replace(how[2], how[3], 1))
@@ -86,6 +87,7 @@ def main(argv: List[str]) -> int:
                 r = subprocess.run(["patch", "-p1", "-s", "-i", how[1]], cwd=d, capture_output=True, text=True)
                 if r.returncode != 0:
                     rows.append((mid, prop, expect, "PATCH-FAILED " + (r.stdout + r.stderr)[-200:], "", 0.0))
+                    print(f"{mid:22s} {prop} expect={expect:6s} PATCH-FAILED  <-- UNEXPECTED", flush=True)
                     bad += 1
                     continue
             rc, viol, wall = _run_check(prop, d, None, seed)
